@@ -9,6 +9,7 @@ import (
 	"io"
 	"sort"
 	"sync"
+	"sync/atomic"
 	"time"
 
 	clcfg "github.com/metrico/cloki-config/config"
@@ -139,6 +140,8 @@ func getSession() *session {
 	return theSession
 }
 
+var cacheMutations atomic.Int64
+
 var scriptCache sync.Map // text → *logql_parser.LogQLScript | error
 
 var parseMu sync.Mutex
@@ -163,7 +166,9 @@ func nodeMap(cluster bool) *model.DataDatabasesMap {
 }
 
 // runImpl executes one case on the real code.
-func runImpl(text string, p Params, db *chsim.DB, cluster bool) (out implResult) {
+// fresh = the case is a REQUEST: logql_parser.Parse is called for it like the service does per request (no cache of
+// the harness in between) and stages evaluated by the in-process engine below the post-processors are allowed.
+func runImpl(text string, p Params, db *chsim.DB, cluster bool, fresh bool) (out implResult) {
 	defer func() {
 		if r := recover(); r != nil {
 			out.planErr = fmt.Errorf("panic in planner: %v", r)
@@ -173,10 +178,18 @@ func runImpl(text string, p Params, db *chsim.DB, cluster bool) (out implResult)
 	// everything else together).  Plan runs afresh for every case.  For the pure-SQL shapes of this grammar Plan and
 	// Process do not modify the script; selfCheckParseCache() verifies that on every query text of the run.
 	var script *logql_parser.LogQLScript
-	if c, ok := scriptCache.Load(text); ok {
+	cached := false
+	if fresh {
+		sc, err := logql_parser.Parse(text)
+		if err != nil {
+			out.planErr = err
+			return
+		}
+		script = sc
+	} else if c, ok := scriptCache.Load(text); ok {
 		switch x := c.(type) {
 		case *logql_parser.LogQLScript:
-			script = x
+			script, cached = x, true
 		case error:
 			out.planErr = x
 			return
@@ -189,7 +202,18 @@ func runImpl(text string, p Params, db *chsim.DB, cluster bool) (out implResult)
 			return
 		}
 		scriptCache.Store(text, sc)
-		script = sc
+		script, cached = sc, true
+	}
+	if cached {
+		// the harness's own parse cache is sound only while planning leaves the AST alone: an AST that renders
+		// differently after the case is dropped from the cache and counted
+		before := script.String()
+		defer func() {
+			if script.String() != before {
+				scriptCache.Delete(text)
+				cacheMutations.Add(1)
+			}
+		}()
 	}
 	chain, err := logql_transpiler_v2.Plan(script)
 	if err != nil {
@@ -211,7 +235,7 @@ func runImpl(text string, p Params, db *chsim.DB, cluster bool) (out implResult)
 		out.harness = fmt.Errorf("second processor is %T, not ZeroEaterPlanner", fix.Main)
 		return
 	}
-	if _, ok := ze.Main.(*shared.ClickhouseGetterPlanner); !ok {
+	if _, ok := ze.Main.(*shared.ClickhouseGetterPlanner); !ok && !fresh {
 		out.planErr = fmt.Errorf("not planned as pure SQL (%T below the post-processors)", ze.Main)
 		return
 	}
